@@ -172,7 +172,21 @@ ConcDocRetrieve(o) ==
          /\ o.results[j].data \in {o.start.doc[p][f]} \cup
               {o.calls[i].ver : i \in {i \in 1..NC(o) : o.calls[i].op = "putmeta" /\ Touches(o.calls[i], p, f)}}
 
+\* C19: "neither [way] leaves the pid bound or disturbs any object that is referenced" - for
+\* the step-wise way the verdict is acted upon by delete_if_invalid_object, for the one-call
+\* way by the rejected store_object
+BadVal(v) == v \in {"badsum", "badsize"}
+ConcRejectedStore(o) ==
+  \A j \in 1..NC(o) :
+    (o.calls[j].op = "store" /\ BadVal(o.calls[j].val)) =>
+      /\ o.results[j].cls \in {"badsum", "badsize", "inprogress", "exists"}
+      /\ (o.start.pref[o.calls[j].pid] = None /\ Cardinality(BindersOk(o, o.calls[j].pid)) = 0)
+            => o.final.pref[o.calls[j].pid] = None
+      /\ \A p \in Pid : (BoundTo(o, p, o.calls[j].c) /\ ~Deletes(o, p)) => Intact(o.final, p, o.calls[j].c)
+
 Quiet == IsOutcome /\ ~O.deadlock
+I_C19_Conc == Quiet => Judge("C19_ConcReferencedUndisturbed",
+                             ConcVerdictKeepsReferenced(O) /\ ConcRejectedStore(O))
 I_C01_Conc == Quiet => /\ Judge("C01_ConcStoreStays", ConcStoreStays(O))
                        /\ Judge("C01_ConcRetrieve", ConcRetrieve(O))
 I_C03_Conc == Quiet => Judge("C03_ConcSingleBinding", ConcSingleBinding(O))
